@@ -729,7 +729,7 @@ func (p *Parser) parseSelectStatement() (ast.Statement, error) {
 							fmt.Sprintf("error parsing ON condition for %s JOIN: %v", joinType, err),
 							p.currentLocation(),
 							"",
-						)
+						).WithCause(err)
 					}
 					joinCondition = cond
 				} else if p.isType(models.TokenTypeUsing) {
@@ -1175,7 +1175,7 @@ func (p *Parser) parseSelectWithSetOperations() (ast.Statement, error) {
 				fmt.Sprintf("error parsing right SELECT: %v", err),
 				p.currentLocation(),
 				"",
-			)
+			).WithCause(err)
 		}
 
 		// Create the set operation with left as the accumulated result
